@@ -491,4 +491,215 @@ theorem x86Go_chunk (e : Bool) : ∀ (n : Nat) (a b : List UInt8) (pc : BitVec 3
             x86Go_conv _ _ _ _ _ _ _ _ _ hop hc, ← ih _ b _ _ hrest]
           rfl
 
+/-! ### the state only matters through the virtual mask; the re-clamp of `prev_pos` at the start of a call is harmless -/
+
+/-- two states give the same virtual mask at the next `n + 1` positions -/
+def MaskEq (st st' : X86State) (pc : BitVec 32) (n : Nat) : Prop :=
+  ∀ j, j ≤ n → x86NewMask st (pc + BitVec.ofNat 32 j) = x86NewMask st' (pc + BitVec.ofNat 32 j)
+
+theorem maskEq_succ {st st' : X86State} {pc : BitVec 32} {n : Nat} (h : MaskEq st st' pc (n + 1)) : MaskEq st st' (pc + 1#32) n := by
+  intro j hj
+  have := h (j + 1) (by omega)
+  have e : pc + BitVec.ofNat 32 (j + 1) = pc + 1#32 + BitVec.ofNat 32 j := by
+    rw [BitVec.ofNat_add, BitVec.add_assoc, BitVec.add_comm (BitVec.ofNat 32 j)]
+  rw [e] at this
+  exact this
+
+theorem maskEq_head {st st' : X86State} {pc : BitVec 32} {n : Nat} (h : MaskEq st st' pc n) : x86NewMask st pc = x86NewMask st' pc := by
+  have := h 0 (Nat.zero_le _)
+  simpa using this
+
+/-- bytes and processed count do not depend on the state beyond the virtual mask -/
+theorem x86Go_maskEq (e : Bool) : ∀ (n : Nat) (l : List UInt8) (pc : BitVec 32) (st st' : X86State), l.length ≤ n →
+    MaskEq st st' pc l.length →
+    (x86Go e pc st l).1 = (x86Go e pc st' l).1 ∧ (x86Go e pc st l).2.1 = (x86Go e pc st' l).2.1 := by
+  intro n
+  induction n with
+  | zero => intro l pc st st' h _; rw [x86Go_short e pc st l (by omega), x86Go_short e pc st' l (by omega)]; exact ⟨rfl, rfl⟩
+  | succ k ih =>
+    intro l pc st st' h hm
+    match l with
+    | [] | [_] | [_, _] | [_, _, _] | [_, _, _, _] =>
+      rw [x86Go_short e pc st _ (by simp), x86Go_short e pc st' _ (by simp)]; exact ⟨rfl, rfl⟩
+    | b0 :: b1 :: b2 :: b3 :: b4 :: rest =>
+      have hlen : (b1 :: b2 :: b3 :: b4 :: rest).length ≤ k := by simp only [List.length_cons] at h ⊢; omega
+      have hμ := maskEq_head hm
+      cases hop : isOpcode b0
+      · have hm' : MaskEq st st' (pc + 1#32) (b1 :: b2 :: b3 :: b4 :: rest).length := maskEq_succ (by simpa using hm)
+        obtain ⟨i1, i2⟩ := ih _ (pc + 1#32) st st' hlen hm'
+        rw [x86Go_skip _ _ _ _ _ _ _ _ _ hop, x86Go_skip _ _ _ _ _ _ _ _ _ hop]
+        simp only [i1, i2, and_self]
+      · cases hc : x86Convertible b4 (x86NewMask st pc)
+        · have hc' : x86Convertible b4 (x86NewMask st' pc) = false := by rw [← hμ]; exact hc
+          rw [x86Go_noconv _ _ _ _ _ _ _ _ _ hop hc, x86Go_noconv _ _ _ _ _ _ _ _ _ hop hc', hμ]
+          exact ⟨rfl, rfl⟩
+        · have hc' : x86Convertible b4 (x86NewMask st' pc) = true := by rw [← hμ]; exact hc
+          rw [x86Go_conv _ _ _ _ _ _ _ _ _ hop hc, x86Go_conv _ _ _ _ _ _ _ _ _ hop hc', hμ]
+          exact ⟨rfl, rfl⟩
+
+/-- `if (now_pos - prev_pos > 5) prev_pos = now_pos - 5;` does not change any later virtual mask -/
+theorem maskEq_clamp (m pp pc : BitVec 32) (n : Nat) (hw : (pc - pp).toNat + n < 2 ^ 32) :
+    MaskEq ⟨m, pp⟩ ⟨m, if pc - pp > 5#32 then pc - 5#32 else pp⟩ pc n := by
+  by_cases hgt : pc - pp > 5#32
+  · rw [if_pos hgt]
+    intro j hj
+    have hd : 5 < (pc - pp).toNat := by
+      rw [gt_iff_lt, BitVec.lt_def] at hgt; simpa using hgt
+    have hjlt : j < 2 ^ 32 := by omega
+    have ej : (BitVec.ofNat 32 j).toNat = j := by rw [BitVec.toNat_ofNat]; exact Nat.mod_eq_of_lt hjlt
+    -- left: offset = (pc - pp) + j > 5
+    have e1 : pc + BitVec.ofNat 32 j - pp = (pc - pp) + BitVec.ofNat 32 j := add_sub_comm pc (BitVec.ofNat 32 j) pp
+    have l1 : x86NewMask ⟨m, pp⟩ (pc + BitVec.ofNat 32 j) = 0#32 := by
+      show (if pc + BitVec.ofNat 32 j - pp > 5#32 then 0#32 else maskShift (pc + BitVec.ofNat 32 j - pp).toNat m) = 0#32
+      rw [e1]
+      have : (pc - pp) + BitVec.ofNat 32 j > 5#32 := by
+        rw [gt_iff_lt, BitVec.lt_def, BitVec.toNat_add, ej]
+        simp only [BitVec.toNat_ofNat]
+        rw [Nat.mod_eq_of_lt (by omega)]
+        omega
+      rw [if_pos this]
+    -- right: offset = 5 + j
+    have e2 : pc + BitVec.ofNat 32 j - (pc - 5#32) = 5#32 + BitVec.ofNat 32 j := add_sub_sub5 pc (BitVec.ofNat 32 j)
+    have l2 : x86NewMask ⟨m, pc - 5#32⟩ (pc + BitVec.ofNat 32 j) = 0#32 := by
+      show (if pc + BitVec.ofNat 32 j - (pc - 5#32) > 5#32 then 0#32 else maskShift (pc + BitVec.ofNat 32 j - (pc - 5#32)).toNat m) = 0#32
+      rw [e2]
+      have hn : (5#32 + BitVec.ofNat 32 j).toNat = 5 + j := by
+        rw [BitVec.toNat_add, ej]; simp only [BitVec.toNat_ofNat]; rw [Nat.mod_eq_of_lt (by omega)]
+      split
+      · rfl
+      · rw [hn]; exact maskShift_ge4 _ _ (by omega)
+    rw [l1, l2]
+  · rw [if_neg hgt]
+    intro j _
+    rfl
+
+/-- where the last candidate is, relative to the position at which the loop stops -/
+theorem x86Go_state_bound (e : Bool) : ∀ (n : Nat) (l : List UInt8) (pc : BitVec 32) (st : X86State), l.length ≤ n → NoWrap st pc l →
+    (x86Go e pc st l).2.1 ≤ l.length ∧
+    ((pc + BitVec.ofNat 32 (x86Go e pc st l).2.1) - (x86Go e pc st l).2.2.prevPos).toNat ≤ (pc - st.prevPos).toNat + (x86Go e pc st l).2.1 := by
+  intro n
+  induction n with
+  | zero =>
+    intro l pc st h _
+    rw [x86Go_short e pc st l (by omega)]
+    simp
+  | succ k ih =>
+    intro l pc st h hw
+    match l with
+    | [] | [_] | [_, _] | [_, _, _] | [_, _, _, _] => rw [x86Go_short e pc st _ (by simp)]; simp
+    | b0 :: b1 :: b2 :: b3 :: b4 :: rest =>
+      have hlen : (b1 :: b2 :: b3 :: b4 :: rest).length ≤ k := by simp only [List.length_cons] at h ⊢; omega
+      have hrest : rest.length ≤ k := by simp only [List.length_cons] at h; omega
+      have e1 : ∀ m : Nat, pc + BitVec.ofNat 32 (m + 1) = pc + 1#32 + BitVec.ofNat 32 m := by
+        intro m; rw [BitVec.ofNat_add, BitVec.add_assoc, BitVec.add_comm (BitVec.ofNat 32 m)]
+      have e5 : ∀ m : Nat, pc + BitVec.ofNat 32 (m + 5) = pc + 5#32 + BitVec.ofNat 32 m := by
+        intro m; rw [BitVec.ofNat_add, BitVec.add_assoc, BitVec.add_comm (BitVec.ofNat 32 m)]
+      have hlen32 := noWrap_len hw
+      cases hop : isOpcode b0
+      · obtain ⟨hw', hlt⟩ := noWrap_skip hw
+        obtain ⟨i1, i2⟩ := ih _ (pc + 1#32) st hlen hw'
+        rw [x86Go_skip _ _ _ _ _ _ _ _ _ hop]
+        simp only [List.length_cons] at i1 ⊢
+        refine ⟨by omega, ?_⟩
+        rw [e1]
+        have : (pc + 1#32 - st.prevPos).toNat = (pc - st.prevPos).toNat + 1 := by
+          rw [sub_succ, BitVec.toNat_add]; simp only [BitVec.toNat_ofNat]; omega
+        omega
+      · cases hc : x86Convertible b4 (x86NewMask st pc)
+        · obtain ⟨i1, i2⟩ := ih _ (pc + 1#32) ⟨noconvMask (x86NewMask st pc) b4, pc⟩ hlen (noWrap_after1 _ pc hlen32)
+          rw [x86Go_noconv _ _ _ _ _ _ _ _ _ hop hc]
+          simp only [List.length_cons] at i1 ⊢
+          refine ⟨by omega, ?_⟩
+          rw [e1]
+          simp only [add1_sub] at i2
+          have : (1#32).toNat = 1 := rfl
+          omega
+        · obtain ⟨i1, i2⟩ := ih _ (pc + 5#32) ⟨0#32, pc⟩ hrest (noWrap_after5 pc hlen32)
+          rw [x86Go_conv _ _ _ _ _ _ _ _ _ hop hc]
+          simp only [List.length_cons] at i1 ⊢
+          refine ⟨by omega, ?_⟩
+          rw [e5]
+          simp only [add5_sub] at i2
+          have : (5#32).toNat = 5 := rfl
+          omega
+
+theorem x86Go_length (e : Bool) : ∀ (n : Nat) (l : List UInt8) (pc : BitVec 32) (st : X86State), l.length ≤ n →
+    (x86Go e pc st l).1.length = l.length := by
+  intro n
+  induction n with
+  | zero => intro l pc st h; rw [x86Go_short e pc st l (by omega)]
+  | succ k ih =>
+    intro l pc st h
+    match l with
+    | [] | [_] | [_, _] | [_, _, _] | [_, _, _, _] => rw [x86Go_short e pc st _ (by simp)]
+    | b0 :: b1 :: b2 :: b3 :: b4 :: rest =>
+      have hlen : (b1 :: b2 :: b3 :: b4 :: rest).length ≤ k := by simp only [List.length_cons] at h ⊢; omega
+      have hrest : rest.length ≤ k := by simp only [List.length_cons] at h; omega
+      cases hop : isOpcode b0
+      · rw [x86Go_skip _ _ _ _ _ _ _ _ _ hop]; simp only [List.length_cons, ih _ _ _ hlen]
+      · cases hc : x86Convertible b4 (x86NewMask st pc)
+        · rw [x86Go_noconv _ _ _ _ _ _ _ _ _ hop hc]; simp only [List.length_cons, ih _ _ _ hlen]
+        · rw [x86Go_conv _ _ _ _ _ _ _ _ _ hop hc]; simp only [List.length_cons, ih _ _ _ hrest]
+
+/-- the clamp applied at the start of `x86_code` -/
+def x86Clamp (st : X86State) (nowPos : BitVec 32) : X86State :=
+  ⟨st.prevMask, if nowPos - st.prevPos > 5#32 then nowPos - 5#32 else st.prevPos⟩
+
+theorem x86Code_short (e : Bool) (st : X86State) (off : BitVec 32) (l : List UInt8) (h : l.length < 5) : x86Code e st off l = (l, 0, st) := by
+  unfold x86Code; rw [if_pos h]
+
+theorem x86Code_long (e : Bool) (st : X86State) (off : BitVec 32) (l : List UInt8) (h : ¬ l.length < 5) :
+    x86Code e st off l = x86Go e off (x86Clamp st off) l := by
+  unfold x86Code; rw [if_neg h]; rfl
+
+theorem clamp_dist (st : X86State) (off : BitVec 32) : (off - (x86Clamp st off).prevPos).toNat ≤ 5 := by
+  unfold x86Clamp
+  by_cases hgt : off - st.prevPos > 5#32
+  · simp only [if_pos hgt, sub_sub5]; decide
+  · simp only [if_neg hgt]
+    rw [gt_iff_lt, BitVec.lt_def] at hgt
+    simp only [BitVec.toNat_ofNat] at hgt
+    omega
+
+/-- **Chunk stability of `x86_code`** (bytes and processed counts): a call on `a ++ b` equals a call on `a` followed by a call, with the
+    returned state and at `now_pos + processed`, on the unprocessed tail followed by `b`. -/
+theorem x86Code_chunk (e : Bool) (st : X86State) (off : BitVec 32) (a b : List UInt8) (hlen : (a ++ b).length + 5 < 2 ^ 32) :
+    (x86Code e st off (a ++ b)).1 =
+        (x86Code e st off a).1.take (x86Code e st off a).2.1
+          ++ (x86Code e (x86Code e st off a).2.2 (off + BitVec.ofNat 32 (x86Code e st off a).2.1)
+                ((x86Code e st off a).1.drop (x86Code e st off a).2.1 ++ b)).1
+    ∧ (x86Code e st off (a ++ b)).2.1 =
+        (x86Code e st off a).2.1
+          + (x86Code e (x86Code e st off a).2.2 (off + BitVec.ofNat 32 (x86Code e st off a).2.1)
+                ((x86Code e st off a).1.drop (x86Code e st off a).2.1 ++ b)).2.1 := by
+  simp only [List.length_append] at hlen
+  by_cases h5 : a.length < 5
+  · rw [x86Code_short e st off a h5]
+    simp
+  · have hab : ¬ (a ++ b).length < 5 := by simp only [List.length_append]; omega
+    rw [x86Code_long e st off a h5, x86Code_long e st off (a ++ b) hab, x86Go_chunk e a.length a b off _ (Nat.le_refl _)]
+    unfold x86Chunked
+    simp only
+    -- abbreviations for the first pass
+    have hw0 : NoWrap (x86Clamp st off) off a := by
+      unfold NoWrap; have := clamp_dist st off; omega
+    obtain ⟨hn1, hbound⟩ := x86Go_state_bound e _ a off (x86Clamp st off) (Nat.le_refl _) hw0
+    have hl1 := x86Go_length e _ a off (x86Clamp st off) (Nat.le_refl _)
+    generalize hR : x86Go e off (x86Clamp st off) a = R at hn1 hbound hl1 ⊢
+    obtain ⟨o1, n1, st1⟩ := R
+    simp only at hn1 hbound hl1 ⊢
+    have htl : (o1.drop n1 ++ b).length = a.length - n1 + b.length := by
+      rw [List.length_append, List.length_drop, hl1]
+    by_cases h5' : (o1.drop n1 ++ b).length < 5
+    · rw [x86Code_short e st1 _ _ h5', x86Go_short e _ st1 _ h5']
+      exact ⟨rfl, rfl⟩
+    · rw [x86Code_long e st1 _ _ h5']
+      have hd := clamp_dist st off
+      have hw : ((off + BitVec.ofNat 32 n1) - st1.prevPos).toNat + (o1.drop n1 ++ b).length < 2 ^ 32 := by
+        rw [htl]; omega
+      have hme := maskEq_clamp st1.prevMask st1.prevPos (off + BitVec.ofNat 32 n1) (o1.drop n1 ++ b).length hw
+      obtain ⟨g1, g2⟩ := x86Go_maskEq e _ (o1.drop n1 ++ b) (off + BitVec.ofNat 32 n1) ⟨st1.prevMask, st1.prevPos⟩
+        (x86Clamp st1 (off + BitVec.ofNat 32 n1)) (Nat.le_refl _) hme
+      exact ⟨by rw [← g1], by rw [← g2]⟩
+
 end XzVerif.Bcj
